@@ -222,6 +222,32 @@ def gen_plan(seed: int, cls: str) -> dict:
                              'opts': gen_json_opts(ro) if fmt == 'json' else {k: v for (k, v) in gen_yaml_opts(ro).items() if k != 'default_style'},
                              'pathkind': ro.choice(PATHKINDS), 'passty': True, 'append': False},
                             {'op': 'read', 'src': sink, 'via': 'func', 'pathkind': ro.choice(PATHKINDS)}]
+    # scenario: a path is written, read, re-written with a *different value whose serialisation has the same length*
+    # (all within the same clock second, as fast as the process runs) and read again: a reader that remembers what a
+    # path held, validated by size and a coarse timestamp, returns the old value
+    rw = st.rng('rewrite')
+    if values and rw.random() < 0.3:
+        cands = [vi for vi, v in enumerate(values) if not v.get('big')]
+        rw.shuffle(cands)
+        for vi in cands:
+            d2 = _same_length_variant(values[vi]['data'], rw)
+            if d2 is None:
+                continue
+            values.append(dict(values[vi], data=d2))
+            vj = len(values) - 1
+            fmt = rw.choice(knobs['fmts'])
+            sink = rw.choice(SINKS_PATH)
+            opts = gen_json_opts(rw) if fmt == 'json' else gen_yaml_opts(rw)
+            via = rw.choice(['func', 'method'])
+            chain = []
+            for (k, v_) in enumerate([vi, vj, vi][:rw.choice([2, 2, 3])]):
+                chain.append({'op': 'write', 'sink': sink, 'val': v_, 'fmt': fmt, 'via': via, 'opts': dict(opts),
+                              'pathkind': rw.choice(PATHKINDS), 'passty': True, 'append': False})
+                chain.append({'op': rw.choice(['read', 'read', 'read_all']) if fmt == 'yaml' else 'read', 'src': sink,
+                              'via': rw.choice(['func', 'method']), 'pathkind': rw.choice(PATHKINDS)})
+            pos = rw.randrange(len(ops) + 1)
+            ops[pos:pos] = chain
+            break
     # the caller writes text of its own to its stream just before / just after pane's document, without flushing (a
     # comment header, a %YAML directive, its own '---' marker, a trailing '...'): pane's document must land between them
     rc = st.rng('ctext')
@@ -246,6 +272,52 @@ def gen_plan(seed: int, cls: str) -> dict:
                     k += 2
                 k += 1
     return {'prop': PROP, 'seed': seed, 'cls': 'long' if long_run else cls, 'knobs': knobs, 'defs': defs, 'values': values, 'ops': ops}
+
+
+def _same_length_variant(enc_data, rng):
+    """A different value of the same shape whose JSON / YAML text has the same length: one ASCII letter or digit of
+    one string or integer leaf is replaced by another one.  None if the value has no such leaf."""
+    import copy
+    leaves = []
+
+    def walk(x, path):
+        if isinstance(x, bool) or x is None:
+            return
+        if isinstance(x, int) and abs(x) >= 10:
+            leaves.append((path, x))
+        elif isinstance(x, str) and x and x[-1].isascii() and x[-1].isalnum():
+            leaves.append((path, x))
+        elif isinstance(x, list):
+            for i, y in enumerate(x):
+                walk(y, path + [i])
+        elif isinstance(x, dict):
+            (k, v), = x.items()             # tg.enc wrappers: {'t': [...]} tuple, {'d': [[key, value], ...]} dict, scalars
+            if k == 't':
+                walk(v, path + [k])
+            elif k == 'd':
+                for i, pair in enumerate(v):
+                    walk(pair[1], path + [k, i, 1])      # values only: keys are often field names
+
+    walk(enc_data, [])
+    if not leaves:
+        return None
+    path, x = leaves[rng.randrange(len(leaves))]
+    if isinstance(x, int):
+        last = abs(x) % 10
+        new = (last + rng.choice([1, 2, 3])) % 10
+        y = (abs(x) - last + new) * (1 if x > 0 else -1)
+    else:
+        pool = '0123456789' if x[-1].isdigit() else ('abcdefghijklmnopqrstuvwxyz' if x[-1].islower() else 'ABCDEFGHIJKLMNOPQRSTUVWXYZ')
+        c = pool[(pool.index(x[-1]) + rng.choice([1, 2, 3])) % len(pool)]
+        y = x[:-1] + c
+    out = copy.deepcopy(enc_data)
+    cur = out
+    for k in path[:-1]:
+        cur = cur[k]
+    if not path:
+        return y
+    cur[path[-1]] = y
+    return out
 
 
 def _cls_uses_opaque(ast, world):
